@@ -48,9 +48,20 @@ static void put_obj(struct hv_str *out, hwloc_obj_t o, unsigned what, unsigned l
   hv_str_add(out, " os=%u", o->os_index);
   if (what & CANON_GP) hv_str_add(out, " gp=%llu", (unsigned long long)o->gp_index);
   if (what & CANON_LIDX) hv_str_add(out, " depth=%d lidx=%u rank=%u", o->depth, o->logical_index, o->sibling_rank);
+  if (what & CANON_BARE) {
+    put_set(out, "cpuset", o->cpuset); put_set(out, "complete_cpuset", o->complete_cpuset);
+    put_set(out, "nodeset", o->nodeset); put_set(out, "complete_nodeset", o->complete_nodeset);
+    hv_str_add(out, "\n");
+    hwloc_obj_t c2;
+    for (c2 = o->memory_first_child; c2; c2 = c2->next_sibling) put_obj(out, c2, what, level + 1, "mem");
+    for (c2 = o->first_child; c2; c2 = c2->next_sibling) put_obj(out, c2, what, level + 1, "child");
+    for (c2 = o->io_first_child; c2; c2 = c2->next_sibling) put_obj(out, c2, what, level + 1, "io");
+    for (c2 = o->misc_first_child; c2; c2 = c2->next_sibling) put_obj(out, c2, what, level + 1, "misc");
+    return;
+  }
   hv_str_add(out, " subtype="); esc(out, o->subtype);
   hv_str_add(out, " name="); esc(out, o->name);
-  put_set(out, "cpuset", o->cpuset); put_set(out, "complete_cpuset", o->complete_cpuset);
+  put_set(out, "cpuset", o->cpuset); if (!((what & CANON_NO_MEM_CCS) && tk_kind(o->type) == TK_MEMORY)) put_set(out, "complete_cpuset", o->complete_cpuset);
   put_set(out, "nodeset", o->nodeset); put_set(out, "complete_nodeset", o->complete_nodeset);
   hv_str_add(out, " total_memory=%llu", (unsigned long long)o->total_memory);
   if (what & CANON_SYMM) hv_str_add(out, " symm=%d", o->symmetric_subtree);
@@ -86,6 +97,7 @@ static void put_obj(struct hv_str *out, hwloc_obj_t o, unsigned what, unsigned l
   for (c = o->misc_first_child; c; c = c->next_sibling) put_obj(out, c, what, level + 1, "misc");
 }
 
+static int cmp_line(const void *a, const void *b) { return strcmp(*(char *const *)a, *(char *const *)b); }
 static void put_location(struct hv_str *out, struct hwloc_location *l, unsigned what)
 {
   if (l->type == HWLOC_LOCATION_TYPE_CPUSET) put_set(out, "cpuset", l->location.cpuset);
@@ -115,6 +127,8 @@ void canon_dump(hwloc_topology_t t, unsigned what, struct hv_str *out)
     put_obj(out, hwloc_get_root_obj(t), what, 0, "root");
   }
   if (what & CANON_DIST) {
+    struct hv_str *realout = out, tmpout;
+    if (what & CANON_DIST_SORTED) { hv_str_init(&tmpout); out = &tmpout; }
     unsigned nr = 0;
     if (hwloc_distances_get(t, &nr, NULL, 0, 0) == 0 && nr) {
       struct hwloc_distances_s **d = calloc(nr, sizeof *d);
@@ -132,6 +146,15 @@ void canon_dump(hwloc_topology_t t, unsigned what, struct hv_str *out)
         }
       } else hv_str_add(out, "distances_get failed errno=%d\n", errno);
       free(d);
+    }
+    if (what & CANON_DIST_SORTED) {
+      /* sort the lines */
+      unsigned nl = 0; for (size_t i = 0; i < tmpout.len; i++) if (tmpout.s[i] == '\n') nl++;
+      char **lines = calloc(nl + 1, sizeof *lines); unsigned k = 0; char *p = tmpout.s;
+      while (k < nl) { lines[k++] = p; char *e = strchr(p, '\n'); *e = 0; p = e + 1; }
+      qsort(lines, nl, sizeof *lines, cmp_line);
+      for (k = 0; k < nl; k++) hv_str_add(realout, "%s\n", lines[k]);
+      free(lines); hv_str_free(&tmpout); out = realout;
     }
   }
   if (what & CANON_MEMATTR) {
